@@ -979,8 +979,21 @@ async fn recycle_history(rng: &mut Rng, srv: &resp::Server) -> usize {
                     st.replies.push_back(match *t {
                         "right" => resp::Reply::Echo(None),
                         "stale" => resp::Reply::Echo(Some("<stale>".into())),
-                        "wrong" => resp::Reply::Echo(Some("zzz".into())),
-                        "error" => resp::Reply::Error,
+                        // "any other value": garbage, the reply of an argument-less PING, a
+                        // number that is not the one sent, the empty string
+                        "wrong" => match rng.below(5) {
+                            0 => resp::Reply::Echo(Some("zzz".into())),
+                            1 => resp::Reply::Pong,
+                            2 => resp::Reply::Echo(Some("PONG".into())),
+                            3 => resp::Reply::Echo(Some("<next>".into())),
+                            _ => resp::Reply::Echo(Some("".into())),
+                        },
+                        // "an error": an error reply or a nil reply
+                        "error" => match rng.below(3) {
+                            0 => resp::Reply::Nil,
+                            1 => resp::Reply::Busy,
+                            _ => resp::Reply::Error,
+                        },
                         "unwatcherr" => resp::Reply::UnwatchError,
                         "drop" => resp::Reply::Drop,
                         _ => resp::Reply::Silent,
@@ -1166,6 +1179,12 @@ pub mod resp {
         Drop,
         /// never answer
         Silent,
+        /// `-BUSY …`: an error reply that the client library does not class as "reconnect"
+        Busy,
+        /// a nil bulk reply
+        Nil,
+        /// `+PONG`: what an argument-less `PING` is answered with
+        Pong,
     }
 
     #[derive(Default)]
@@ -1249,6 +1268,10 @@ pub mod resp {
                     // `stale`: the value of the previous ping on this pool
                     let r = match r {
                         Reply::Echo(Some(v)) if v == "<stale>" => Reply::Echo(Some(st.last_ping.clone().unwrap_or("x".into()))),
+                        // `next`: the number after the one that was sent
+                        Reply::Echo(Some(v)) if v == "<next>" => {
+                            Reply::Echo(Some(arg.parse::<u64>().map(|n| (n + 1).to_string()).unwrap_or("y".into())))
+                        }
                         r => r,
                     };
                     st.last_ping = Some(arg.clone());
@@ -1259,6 +1282,9 @@ pub mod resp {
                         }
                         Reply::UnwatchError => Some(format!("${}\r\n{arg}\r\n", arg.len())),
                         Reply::Error => Some("-ERR scripted failure\r\n".to_string()),
+                        Reply::Busy => Some("-BUSY scripted busy\r\n".to_string()),
+                        Reply::Nil => Some("$-1\r\n".to_string()),
+                        Reply::Pong => Some("+PONG\r\n".to_string()),
                         Reply::Drop => {
                             drop(st);
                             let _ = s.shutdown(std::net::Shutdown::Both);
